@@ -9,8 +9,9 @@ Recs == JsonDeserialize(IOEnv.TRACE_FILE)
 Norm(res) == [key \in KeySet |-> res[key]]
 Check(i) == LET r == Recs[i]
                 res == Norm(r.res)
-                v == Verdict(r.pkgs, r.err, res)
-                m == Impl(r.pkgs)
+                tp == Tok(r.pkgs)
+                v == VerdictT(tp, r.err, res)
+                m == ImplT(tp)
             IN /\ IF v = "ok" THEN TRUE ELSE PrintT(<<"VERDICT", i, v>>)
                /\ IF m.err = r.err /\ (r.err \/ m.res = res) THEN TRUE ELSE PrintT(<<"DIVERGE", i>>)
 TInit == k = 0
